@@ -255,9 +255,10 @@ def _run(V, work, tier):
     # ---- 4. the builtin matrix ---------------------------------------------------------------------------------
     shards = 14
     triples = 400000 if thorough else 1500
+    quads = 0 if thorough else 25000        # small pool in every position: exhaustive (thorough) or sampled
 
     def matrix(i):
-        rec = {"id": i, "shard": i, "shards": shards, "pool": "full", "triples": triples, "seed": seed() * 100 + i}
+        rec = {"id": i, "shard": i, "shards": shards, "pool": "full", "triples": triples, "quads": quads, "seed": seed() * 100 + i}
         p = subprocess.run([binary, "matrix"], input=json.dumps(rec) + "\n", capture_output=True, text=True, env=goenv(), timeout=3400)
         return p.returncode, [json.loads(l) for l in p.stdout.splitlines() if l.strip()], p.stderr
     with concurrent.futures.ThreadPoolExecutor(max_workers=shards) as ex:
@@ -270,7 +271,7 @@ def _run(V, work, tier):
             continue
         if rc != 0:
             # the process died: rerun the shard verbosely to name the call
-            rec = {"id": i, "shard": i, "shards": shards, "pool": "full", "triples": triples, "seed": seed() * 100 + i, "verbose": True}
+            rec = {"id": i, "shard": i, "shards": shards, "pool": "full", "triples": triples, "quads": quads, "seed": seed() * 100 + i, "verbose": True}
             p = subprocess.run([binary, "matrix"], input=json.dumps(rec) + "\n", capture_output=True, text=True, env=goenv(), timeout=3400)
             last = [l for l in p.stderr.splitlines() if l.startswith("(")]
             fatal = [l for l in p.stderr.splitlines() if l.startswith("fatal error")]
